@@ -123,6 +123,12 @@ func CmdCheck(cfg RunConfig) int {
 			}
 			// locked as finding but no longer listed: treat as violation
 		}
+		if o.Cover && !good && o.Status != "cover-unsat" {
+			// a reachability guard that the solvers did not decide in their (short) budget this time: never an alarm;
+			// only a guard that is refuted (cover-unsat: the path became unreachable / the hypotheses contradictory) is
+			unlocked = append(unlocked, o.Name+" ("+o.Status+", reachability guard undecided in this run)")
+			continue
+		}
 		nObl++
 		if good {
 			nDis++
